@@ -1518,6 +1518,23 @@ def run(ck):
                     R.report(key, rep)
                 else:
                     ck.violation(dict(rep, oracle="values written into the target / direct read of the target / clean status"))
+    # ---- 4. mid-level tier 2: opening a linking file (READ, MODIFY) and reading through it never changes the linked-to
+    #         file, whatever library version wrote the files (the layouts cgi_read_* upgrades in MODIFY mode)
+    R.dist["nonowning_cases"] = 0
+    for be in ("adf", "hdf5"):
+        todo = [(v, k, None) for v, k in AGING] + list(AGING_DEFECTS)
+        for j, (ver, kinds, dkey) in enumerate(todo):
+            fails, info = nonowning_case(mexe, be, R.root, ver, kinds, ck.rng.randint(1, 10 ** 6), relname=(j % 2 == 0), defect_key=dkey)
+            ck.cov["traces_validated_against_impl"] += 3
+            R.dist["nonowning_cases"] += 1
+            ck.case("nonowning:%s:%s:%s" % (be, ver, "+".join(kinds)))
+            for desc, key in fails[:1]:
+                rep_ = dict(kind="nonowning", backend=be, version=ver, kinds=list(kinds), failure=desc, script=info.get("script"),
+                            oracle="SHA-256 and complete cgio dump of the linked-to file before / after open + read + close of the linking file")
+                if key is not None:
+                    R.report(key, rep_)
+                else:
+                    ck.violation(rep_)
     # ---- verdicts for unkeyed oracle failures and for divergences
     for be, g, tag, i, desc in R.unknown[:2]:
         small, f2 = R.shrink_unknown(be, g, i)
@@ -1560,6 +1577,11 @@ def replay(ck, path):
     r = json.load(open(path))
     vlib.build_impl()
     root = os.path.join(ck.work, "w")
+    if r.get("kind") == "nonowning":
+        mexe = vlib.build_harness("c08_mll", ["c08_mll.c"])
+        fails, info = nonowning_case(mexe, r["backend"], root, r["version"], tuple(r["kinds"]), r.get("seed", 1), True)
+        print("replay: %s" % (json.dumps([f for f, _ in fails][:2])[:1500] if fails else "holds"))
+        return 1 if fails else 0
     if r.get("kind") == "mll":
         mexe = vlib.build_harness("c08_mll", ["c08_mll.c"])
         c = MllCase(r["case"], r["backend"], root)
@@ -1584,3 +1606,117 @@ def replay(ck, path):
     fails, div = judge(be, script, exp, meta, res)
     print("replay: outcome=%s failures=%s divergence=%s" % (res["outcome"], json.dumps([(i, d, k) for i, d, k in fails][:3]), json.dumps(div)))
     return 1 if fails else 0
+
+
+# ============================================================================ mid-level tier 2: opening a linking file never changes the linked-to file
+K_GC = "modify-open-adds-GridCoordinates-to-linked-zone"
+
+
+def _i8(vals):
+    return b"".join(struct.pack("<q", v) for v in vals).hex()
+
+
+def _units(names):
+    return b"".join(n.encode().ljust(32) for n in names).hex()
+
+
+def aging_recipe(version, kinds):
+    """cgio edits that give the rich target file the layout an older library wrote (what cgi_read_* upgrades in MODIFY mode)"""
+    ops = []
+    U = "/Base/ZoneU/"
+    if "offsets" in kinds:          # < 4.0 and != 3.4: no ElementStartOffset; NGON_n / NFACE_n carry the counts inline
+        ops.append("io.del %s" % hx((U + "Mixed/ElementStartOffset").encode()))
+        if "nopoly" not in kinds:
+            ngon = [1,2,3,4, 5,6,7,8, 1,2,6,5, 2,3,7,6, 3,4,8,7, 4,1,5,8]
+            inline = []
+            for k in range(6):
+                inline += [4] + ngon[4 * k: 4 * k + 4]
+            ops.append("io.set %s I8 30 %s" % (hx((U + "Ngon/ElementConnectivity").encode()), _i8(inline)))
+            ops.append("io.del %s" % hx((U + "Ngon/ElementStartOffset").encode()))
+            ops.append("io.set %s I8 7 %s" % (hx((U + "Nface/ElementConnectivity").encode()), _i8([6, 5, 6, 7, 8, 9, 10])))
+            ops.append("io.del %s" % hx((U + "Nface/ElementStartOffset").encode()))
+    if "nopoly" in kinds:           # < 3.0 knows no NGON_n / NFACE_n
+        ops.append("io.del %s" % hx((U + "Ngon").encode()))
+        ops.append("io.del %s" % hx((U + "Nface").encode()))
+    if "renumber" in kinds:         # 3.0.x element numbering: PYRA_13 sat at 13, everything up to MIXED one higher
+        ops.append("io.set %s I4 2 %s" % (hx((U + "Mixed").encode()), struct.pack("<ii", 21, 0).hex()))
+        # (only element types up to PYRA_5 inside: for 3.0.x MIXED data with higher types the reader's pre-4.0 offset
+        #  reconstruction re-reads the unconverted type tokens and overruns its buffer -- a reader defect outside C08,
+        #  see notes/C08.md)
+        ops.append("io.set %s I8 10 %s" % (hx((U + "Mixed/ElementConnectivity").encode()), _i8([10, 1, 2, 3, 5, 10, 2, 3, 4, 6])))
+    if "parentdata" in kinds:       # one ParentData array instead of ParentElements + ParentElementsPosition
+        ops.append("io.del %s" % hx((U + "Quads/ParentElements").encode()))
+        ops.append("io.del %s" % hx((U + "Quads/ParentElementsPosition").encode()))
+        ops.append("io.new %s %s %s I8 2,4 %s" % (hx((U + "Quads").encode()), hx(b"ParentData"), hx(b"DataArray_t"), _i8([1, 1, 0, 0, 1, 6, 0, 0])))
+    if "celcius" in kinds:          # the old spelling of the temperature unit
+        for q in (b"/Base/DimensionalUnits", b"/Base/ZoneU/DimensionalUnits"):
+            ops.append("io.set %s C1 32,5 %s" % (hx(q), _units(["Kilogram", "Meter", "Second", "Celcius", "Degree"])))
+    if "fbclabel" in kinds:         # pre 3.1.3: the data set of a FamilyBC_t carried the label BCDataSet_t
+        ops.append("io.label %s %s" % (hx(b"/Base/Fam/FBC/FDS"), hx(b"BCDataSet_t")))
+    if "nocoords" in kinds:         # a zone without GridCoordinates_t
+        ops.append("io.del %s" % hx(b"/Base/ZoneS/GridCoordinates"))
+    stamp = "io.set %s R4 1 %s" % (hx(b"/CGNSLibraryVersion"), struct.pack("<f", version).hex())
+    return ops, stamp
+
+
+K_UNITS = "modify-open-rewrites-directly-linked-units"
+AGING = [(4.5, ()), (3.4, ("celcius",)), (3.3, ("offsets", "celcius")), (3.1, ("offsets", "parentdata", "fbclabel")),
+         (3.0, ("offsets", "renumber")), (2.5, ("offsets", "nopoly", "parentdata", "fbclabel", "celcius")),
+         (3.2, ("offsets", "parentdata", "celcius", "fbclabel"))]
+# two situations in which the CURRENT library writes into the linked-to file (genuine defects, see notes/C08.md D11, D12)
+AGING_DEFECTS = [(4.5, ("nocoords",), K_GC), (4.5, ("celcius", "unitslink"), K_UNITS)]
+
+
+def sha256(path):
+    return hashlib.sha256(open(path, "rb").read()).hexdigest() if os.path.exists(path) else None
+
+
+def run_stage(mexe, root, lines):
+    for k in ("ADF_LINK_PATH", "HDF5_LINK_PATH", "CGNS_LINK_PATH", "HDF5_EXT_PREFIX"):
+        os.environ.pop(k, None)
+    il, outcome, stack = vlib.run_impl(mexe, "\n".join(lines) + "\n", timeout=120, cwd=os.path.join(root, "cwd"), want_stack=True)
+    return [BADID.sub("", l) for l in il], outcome, stack
+
+
+def nonowning_case(mexe, be, root, version, kinds, seed, relname, defect_key=None):
+    """build B (aged to `version`) and A (links into B), then open A in READ and in MODIFY mode, read broadly through the
+    links, close; B's bytes (SHA-256) and its complete cgio dump must be the same before and after.
+    -> (failures [(description, key)], info)"""
+    prepare_dirs(root)
+    A = (root + "/m/a.cgns").encode(); B = (root + "/m/b.cgns").encode()
+    fname = b"b.cgns" if relname else B
+    ops, stamp = aging_recipe(version, kinds)
+    build = ["ftype %s" % be, "mkrich %s %d" % (hx(B), seed), "mklinks %s %s %d" % (hx(A), hx(fname), (0 if "nopoly" in kinds else 1) + (2 if "unitslink" in kinds else 0)),
+             "io.open %s" % hx(B)] + ops + ([stamp] if version < 4.4 else []) + ["io.close"]
+    if version < 4.4:
+        build += ["io.open %s" % hx(A), stamp, "io.close"]
+    build += ["io.dump %s" % hx(B)]
+    fails = []
+    il, outcome, stack = run_stage(mexe, root, build)
+    if outcome != "ok" or len(il) != len(build) or any(l != "ok" for l in il[:-1]) or not il[-1].startswith("ok D:"):
+        bad = next((i for i, l in enumerate(il) if not l.startswith("ok")), len(il))
+        return [(dict(stage="build", op=build[min(bad, len(build) - 1)], got=il[bad] if bad < len(il) else None, outcome=outcome, stack=stack), None)], {}
+    d0, s0 = il[-1], sha256(B.decode())
+    digests = {}
+    for mode in ("r", "m"):
+        st = ["ftype %s" % be, "open 0 %s %s" % (hx(A), mode), "readall 0", "close 0", "io.dump %s" % hx(B)]
+        il, outcome, stack = run_stage(mexe, root, st)
+        desc = dict(stage="open %s + readall + close" % ("READ" if mode == "r" else "MODIFY"), version=version, kinds=list(kinds), backend=be)
+        key = defect_key
+        if outcome != "ok" or len(il) != len(st):
+            fails.append((dict(desc, outcome=outcome, stack=stack, lines=il), None)); break
+        if il[1] != "ok":
+            fails.append((dict(desc, problem="the linking file does not open", got=il[1]), key)); break
+        digests[mode] = il[2]
+        if not il[2].startswith("ok A:") or not il[2].endswith(":0"):
+            fails.append((dict(desc, problem="a read through the links failed", got=il[2]), None))
+        if il[4] != d0:
+            fails.append((dict(desc, problem="the cgio dump of the LINKED-TO file changed", before=nodedb.short(d0, 400), after=nodedb.short(il[4], 400),
+                               first_difference=next((k for k in range(min(len(d0), len(il[4]))) if d0[k] != il[4][k]), None)), key))
+        elif sha256(B.decode()) != s0:
+            fails.append((dict(desc, problem="the bytes (SHA-256) of the LINKED-TO file changed although its cgio dump did not"), key))
+    if not fails and digests.get("r") != digests.get("m"):
+        fails.append((dict(problem="READ and MODIFY sessions read different things through the links", read=digests.get("r"), modify=digests.get("m"),
+                           version=version, kinds=list(kinds), backend=be), None))
+    script = build + ["# then, each in a fresh process: open 0 A r|m ; readall 0 ; close 0 ; io.dump B ; sha256(B)"]
+    return fails, dict(script=script, digests=digests)
